@@ -91,6 +91,14 @@ def run_case(case):
         refX, refY = mk(xv), mk(yv)
         tgt = make_molecule('TGT', simple_atoms(nt, 'A', 'TGT'), [(j, j + 1) for j in range(nt - 1)],
                             [[SymReal(v) for v in row] for row in tv])
+        # a map for another molecule with the same atom names but a different bond graph is built first and used once:
+        # any state shared between ExchangeMap instances (module-level caches keyed by atoms) would leak into the map under test
+        from symx.mol import decoy_graph
+        decoy_edges = decoy_graph(n, edges)
+        if decoy_edges:
+            dref = make_molecule('REF', simple_atoms(n, 'C', 'REF'), decoy_edges, [[float(i_ + 1), float(i_ * i_) / 3.0, float(i_ % 2)] for i_ in range(n)])
+            dtgt = make_molecule('TGT', simple_atoms(nt, 'A', 'TGT'), [(j, j + 1) for j in range(nt - 1)], [[0.5 * j, 0.25, 0.125] for j in range(nt)])
+            ExchangeMap(dref, dtgt, 0.5)(dref)
         m = ExchangeMap(refX, tgt, SymReal(s))
         framesX = dict(m._refsystems)
         outY = m(refY).atoms_positions
@@ -229,6 +237,12 @@ def replay(w):
     adj = {i: sorted(b if a == i else a for a, b in edges if i in (a, b)) for i in range(n)}
     bad = []
     with np.errstate(all='ignore'):
+        from symx.mol import decoy_graph
+        decoy_edges = decoy_graph(n, edges)
+        if decoy_edges:
+            dref = make_molecule('REF', simple_atoms(n, 'C', 'REF'), decoy_edges, np.array([[float(i_ + 1), float(i_ * i_) / 3.0, float(i_ % 2)] for i_ in range(n)]))
+            dtgt = make_molecule('TGT', simple_atoms(nt, 'A', 'TGT'), [(j, j + 1) for j in range(nt - 1)], np.array([[0.5 * j, 0.25, 0.125] for j in range(nt)]))
+            ExchangeMap(dref, dtgt, 0.5)(dref)
         m = ExchangeMap(mk(X), tgt, s)
         eq = dict(m._equivalences)
         out = m(mk(Y)).atoms_positions
